@@ -144,10 +144,13 @@ def evaluator_terms(ctx):
         role.clear()
         role[FI] = "FMM"
         inner = {id(y) for x in ast.walk(outer) if isinstance(x, ast.FunctionDef) and x is not outer for y in ast.walk(x)}
+        from . import roles as _roles
+
+        odefs = _roles.Defs(outer)
         for st in ast.walk(outer):
             if id(st) in inner or not isinstance(st, ast.Assign) or len(st.targets) != 1:
                 continue
-            t, txt = st.targets[0], unparse(st.value).replace(" ", "")
+            t, txt = st.targets[0], unparse(_roles.inline(st.value, odefs)).replace(" ", "")
             if isinstance(t, ast.Name):
                 if txt.startswith(D + ".map_to_points(") and "return_transpose" not in txt:
                     role[t.id] = "S"
